@@ -1,5 +1,8 @@
 import ColoVerif.Proofs.CheckedRowLeg
 import ColoVerif.Proofs.CheckedCores
+import ColoVerif.Proofs.CheckedTetris
+import ColoVerif.Proofs.CheckedIncrNet
+import ColoVerif.Proofs.CheckedFlow
 import ColoVerif.Model.LegacyChecked
 /-
 C07 — placement calls return or throw; never crash or invoke undefined behaviour.
@@ -233,5 +236,113 @@ theorem freespace_no_fault (c : Circuit) (h : ∀ cl ∈ c.cells, CellOk cl) :
 
 example : CellOk ⟨4194304, 512, -4194304, 4194304 - 512, .N, true, true, .ANY⟩ := by
   unfold CellOk; decide
+
+/-! ### TetrisLegalizer (and LegalizerBase::closestRow) -/
+
+open ColoVerif.Legalize in
+/-- **Tetris: no fault, one cell.**  (src/place_detailed/tetris_legalizer.cpp, `closestRow` of
+legalizer.cpp.)  In a legalizer state of the domain (`TDom`: at least one row, row coordinates and
+free positions within ±2^22, row height in [1, 2^23]) placing a cell of the domain (`CellOkT`:
+placed width in [0, 2^22], height ≤ 2^22, target within ±2^29 — what `placeGlobal` can hand over)
+evaluates every `int` expression of `placeCell`, `attemptPlacement`, `getPossibleIntervals`,
+`instanciateCell` and `closestRow` (`targetY - y`, `std::abs(…) + std::abs(…)`, `e + width`,
+`rows_[r].maxX - w`, `y + rowHeight()`, `x + w`, …) without overflow and without an out-of-range
+row access, returns exactly the unbounded model's result, and leaves a state of the domain. -/
+theorem tetris_place_no_fault (t : Tetris) (c : LCell) (hd : TDom t) (hc : CellOkT c) :
+    tetrisPlaceC t c = .ok (tetrisPlace t c) ∧ TDom (tetrisPlace t c).1 :=
+  tetrisPlaceC_ok hd hc
+
+open ColoVerif.Legalize in
+/-- **Tetris: no fault, whole run.**  Constructor (`rowHeight()` = `maxY - minY`) and
+`TetrisLegalizer::run` over any list of cells of the domain, for any non-empty set of rows with
+all four coordinates within ±2^22 and positive height.  Termination: `tetrisRunC` and every
+function below it is a structural recursion (over the cells, the rows, the intervals, or the same
+fuel `h + 1` as the unbounded model, which suffices because `rowHeight() ≥ 1`). -/
+theorem tetris_no_fault (rows : List Row) (cells : List LCell) (hne : rows ≠ [])
+    (hr : ∀ r ∈ rows, RowOkFull r) (hc : ∀ c ∈ cells, CellOkT c) :
+    andThen (Tetris.initC rows) (fun t => tetrisRunC t cells) = .ok (tetrisRun (Tetris.init rows) cells) := by
+  have h1 := initC_ok hne hr
+  rw [h1.1]
+  exact tetrisRunC_ok cells _ h1.2 hc
+
+open ColoVerif.Legalize in
+/-- non-vacuity: two stacked rows at the corner of the range, a two-row cell targeted at the
+opposite corner of the target range and a one-row cell -/
+example :
+    andThen (Tetris.initC [⟨⟨4194204, 4194304, 4194284, 4194294⟩, .N⟩, ⟨⟨4194204, 4194304, 4194294, 4194304⟩, .FS⟩])
+      (fun t => tetrisRunC t [⟨30, 20, .ANY, -536870912, -536870912, .N⟩, ⟨50, 10, .SAME, 4194304, 4194304, .N⟩]) =
+    .ok [⟨4194204, 4194284, .N, true⟩, ⟨4194254, 4194294, .FS, true⟩] := by decide
+
+open ColoVerif.Legalize in
+/-- **Witness (beyond the domain).**  A target at `INT_MIN` — what the unrepaired `placeGlobal`
+exported for a NaN position (fixed by ff24028) — makes `std::abs(targetX - x)` overflow in
+`TetrisLegalizer::placeCell`: the checked model reports the fault UBSan reported. -/
+theorem tetris_overflow_beyond_domain :
+    andThen (Tetris.initC [⟨⟨0, 10, 0, 1⟩, .N⟩]) (fun t => tetrisRunC t [⟨1, 1, .ANY, -2147483648, 0, .N⟩]) =
+      .error (.intOverflow "placeCell: std::abs(targetX - x)") := by decide
+
+/-! ### IncrNetModel (wirelength bookkeeping of the detailed placer) -/
+
+/-- **Pin offsets: no fault.**  `Circuit::pinXOffset/pinYOffset` (`placedWidth - offs` for flipped
+orientations) on a cell and a pin of the domain; the results lie within ±2^23. -/
+theorem pin_offset_no_fault (cl : Cell) (p : Pin) (hc : CellOk cl) (hp : PinOk p) :
+    pinXOffsetC cl p = .ok (Circuit.pinXOffset cl p) ∧ pinYOffsetC cl p = .ok (Circuit.pinYOffset cl p) ∧
+    -8388608 ≤ Circuit.pinXOffset cl p ∧ Circuit.pinXOffset cl p ≤ 8388608 ∧
+    -8388608 ≤ Circuit.pinYOffset cl p ∧ Circuit.pinYOffset cl p ≤ 8388608 :=
+  ⟨(pinXOffsetC_ok hc hp).1, (pinYOffsetC_ok hc hp).1, (pinXOffsetC_ok hc hp).2.1, (pinXOffsetC_ok hc hp).2.2,
+   (pinYOffsetC_ok hc hp).2.1, (pinYOffsetC_ok hc hp).2.2⟩
+
+open ColoVerif.IncrNet in
+/-- **IncrNetModel: no fault, one update.**  (src/place_detailed/incr_net_model.cpp.)  In a model
+of the domain (`DomC`: positions within ±2^23, offsets within ±2^24, no empty net, fewer than 2^31
+nets, stored net bounds ordered and within ±2^25, `value_` consistent) `updateCellPos(cell, pos)`
+with `|pos| ≤ 2^23` evaluates `cellPos_[c] + netPinOffset` (int), the three `int` differences of
+`recomputeNet` and the `long long` accumulation without overflow, equals the unbounded model and
+stays in the domain. -/
+theorem incrnet_update_no_fault (m : Model) (cell : Nat) (pos : Int) (hd : m.DomC)
+    (hp : -8388608 ≤ pos ∧ pos ≤ 8388608) (hnets : ∀ n ∈ m.cellNetList cell, n < m.nbNets) :
+    m.updateCellPosC cell pos = .ok (m.updateCellPos cell pos) ∧ (m.updateCellPos cell pos).DomC :=
+  updateCellPosC_ok m cell pos hd hp hnets
+
+open ColoVerif.IncrNet in
+/-- **IncrNetModel: no fault on circuits of the domain.**  For a circuit whose cells lie within
+±2^22 with sizes in [0, 2^22] and whose pin offsets are within ±2^22, building the x and y
+topologies for any subset of cells (`int pos = circuit.x(cell) + offset` for the other cells,
+`computeNetMinMaxPos`, `computeValue`: `second - first` in `int`, sum in `long long`) and then any
+sequence of `updateCellPos` calls with positions within ±2^23 never faults; the values are the
+unbounded model's (which `C09` proves to be the HPWL). -/
+theorem incrnet_no_fault (c : Circuit) (cells : List Nat) (ops : List (Nat × Int)) (hc : CircuitOk c)
+    (hops : ∀ o ∈ ops, -8388608 ≤ o.2 ∧ o.2 ≤ 8388608) :
+    xTopologyC c cells = .ok (xTopology c cells) ∧ yTopologyC c cells = .ok (yTopology c cells) ∧
+    IncrNet.runC ops (xTopology c cells) = .ok (IncrNet.run (xTopology c cells) ops) ∧
+    IncrNet.runC ops (yTopology c cells) = .ok (IncrNet.run (yTopology c cells) ops) := by
+  have hx : ∀ cl ∈ c.cells, -4194304 ≤ cl.x ∧ cl.x ≤ 4194304 := fun cl h => by
+    have := hc.cells cl h; unfold CellOk at this; omega
+  have hy : ∀ cl ∈ c.cells, -4194304 ≤ cl.y ∧ cl.y ≤ 4194304 := fun cl h => by
+    have := hc.cells cl h; unfold CellOk at this; omega
+  have hox : ∀ n ∈ c.nets, ∀ p ∈ n.pins, -8388608 ≤ Circuit.pinXOffset (c.cell p.cell) p ∧
+      Circuit.pinXOffset (c.cell p.cell) p ≤ 8388608 :=
+    fun n hn p hp => (pinXOffsetC_ok (hc.cell p.cell) (hc.pins n hn p hp)).2
+  have hoy : ∀ n ∈ c.nets, ∀ p ∈ n.pins, -8388608 ≤ Circuit.pinYOffset (c.cell p.cell) p ∧
+      Circuit.pinYOffset (c.cell p.cell) p ≤ 8388608 :=
+    fun n hn p hp => (pinYOffsetC_ok (hc.cell p.cell) (hc.pins n hn p hp)).2
+  have hpx : ∀ i, -4194304 ≤ (c.cell i).x ∧ (c.cell i).x ≤ 4194304 := fun i => by
+    have := hc.cell i; unfold CellOk at this; omega
+  have hpy : ∀ i, -4194304 ≤ (c.cell i).y ∧ (c.cell i).y ≤ 4194304 := fun i => by
+    have := hc.cell i; unfold CellOk at this; omega
+  exact ⟨(xTopologyC_ok c cells hx hox hc.nets).1, (yTopologyC_ok c cells hy hoy hc.nets).1,
+    (topology_runC_ok Circuit.pinXOffset (·.x) c cells hpx hox hc.nets ops hops).1,
+    (topology_runC_ok Circuit.pinYOffset (·.y) c cells hpy hoy hc.nets ops hops).1⟩
+
+open ColoVerif.IncrNet in
+/-- **Witnesses (beyond the domain).**  A pin at `INT_MAX + 1` overflows `cellPos_[c] +
+netPinOffset`; a net without pins (which `IncrNetModelBuilder::addNet` never creates) would make
+`computeValue` evaluate `INT_MIN - INT_MAX`. -/
+theorem incrnet_overflow_beyond_domain :
+    overflowWitness.computeNetMinMaxPosC 0 =
+      .error (.intOverflow "computeNetMinMaxPos: cellPos_[c] + netPinOffset") ∧
+    (Builder.mk 1 [0, 0] [] []).buildC [0] =
+      .error (.intOverflow "computeValue: minMaxPos.second - minMaxPos.first") := by
+  constructor <;> decide
 
 end ColoVerif.C07
